@@ -24,10 +24,11 @@ KEY_POOLS = {
 # runner.  Histories with mixed values are judged by the implementation-side oracles only.
 VALUE_POOL = ["\x02f:0.5", "\x02f:-2.25", "\x02f:1e+308", "\x02f:nan", "\x02f:inf", "\x02f:-0.0", "\x02f:3.0", "\x02s:ab", "\x02s:", "\x02none",
               "\x02b:1", "\x02b:0", "\x02arr:[1, 2, 3]", "\x02arr:[0.5, -1.0]", "\x02arr:[]", "\x02np:7", "\x02npf:2.5", "\x02tup:[1, 2]",
-              "\x02big:123456789012345678901234567890", "\x02c:1+2j", "\x02list:[1, 2]"]
+              "\x02big:123456789012345678901234567890", "\x02c:1+2j", "\x02list:[1, 2]",
+              "\x02frac:1/3", "\x02frac:-7/2", "\x02dec:1.5", "\x02num:4", "\x02num:-2"]      # Fraction, Decimal, a user-defined number class
 
 
-NUMERIC_POOL = [v for v in VALUE_POOL if v.split(":")[0][1:] in ("f", "b", "np", "npf", "big", "c")]
+NUMERIC_POOL = [v for v in VALUE_POOL if v.split(":")[0][1:] in ("f", "b", "np", "npf", "big", "c", "frac", "num")]
 
 
 def gen_value(rng, values="int", lo=-9, hi=9):
@@ -45,14 +46,14 @@ def rename_keys(rng, spec, leaves, conts, pool, p_rename=0.6):
     mapping = {}
 
     def walk(node, prefix):
-        if node["kind"] == "dict":
+        if node["kind"] in ("dict", "userdict"):
             names = [k for k, _ in node["items"]]
             new = rng.sample(pool, min(len(pool), len(names)))
             mapping[prefix] = {k: n for k, n in zip(names, new) if rng.random() < p_rename}
         for k, v in node["items"]:
             if isinstance(v, dict):
                 walk(v, prefix + (k,))
-        if node["kind"] == "dict":
+        if node["kind"] in ("dict", "userdict"):
             node["items"] = [[mapping[prefix].get(k, k), v] for k, v in node["items"]]
     for label, node in spec:
         if label == "c":
@@ -74,9 +75,10 @@ def make_store(rng, nested=True, attrdict=False, keys=None, values="int"):
         return rename_keys(rng, spec, leaves, conts, KEY_POOLS[keys])
     def leafs(names):
         return [[k, gen_value(rng, values)] for k in names]
-    kn = rng.choice(["dict", "obj"])
-    kp = rng.choice(["dict", "obj"])
-    step = lambda kind: "i" if kind in ("dict", "list") else "a"
+    # container classes: dict / list subclasses, a collections.UserDict, a plain object, an object with __slots__
+    kn = rng.choice(["dict", "obj", "dict", "obj", "userdict", "slots"])
+    kp = rng.choice(["dict", "obj", "dict", "obj", "userdict", "slots"])
+    step = lambda kind: "i" if kind in ("dict", "list", "userdict") else "a"
     c_items = leafs("abcd")
     leaves = [["c", ["i", k]] for k in "abcd"]
     conts = []
@@ -476,7 +478,7 @@ def leaves_of(case):
 
     def walk(spec, pre, kind_of_parent):
         for k, v in spec["items"]:
-            step = ["i", k] if spec["kind"] in ("dict", "list") else ["a", k]     # obj / attrdict: attribute steps
+            step = ["i", k] if spec["kind"] in ("dict", "list", "userdict") else ["a", k]     # obj / attrdict / slots: attribute steps
             if isinstance(v, dict):
                 walk(v, pre + [step], v["kind"])
             elif v != "FunSum":
